@@ -312,6 +312,9 @@ structure DInv (sem : DSem) (d : DState) (w : World) : Prop where
   disabled : d.enc.enabled = false
   sync : EffRun d.af (d.buffer.drop d.next) d.pending
   next_le : d.next ≤ d.buffer.length
+  /-- as long as no update follows the last computation of the buffer (so that a query may answer
+  from the cache) the solver's framework is the pending one -/
+  tail_sync : d.buffer.reverse.takeWhile (fun ev => !ev.isUpdate) ≠ [] → d.af = d.pending
 
 /-- **`update_encoding`**: whatever was buffered, afterwards the solver's framework is the pending
 one and the clause database encodes it with no stale constraint -/
@@ -366,7 +369,8 @@ theorem wp_updateEncoding {C : Prop} {sem : DSem} {d : DState} {w : World} (h : 
       · exact hj)
   refine wp_mono _ _ _ _ ?_ hfold2
   rintro e w2 ⟨hw2, _, ⟨hs, T, F, hI⟩, _⟩
-  refine ⟨⟨hw2, hinv, ⟨hs, T, F, (hI.weaken (fun j hj => by simp at hj)).set_enabled false⟩, rfl, ?_, Nat.le_refl _⟩,
+  refine ⟨⟨hw2, hinv, ⟨hs, T, F, (hI.weaken (fun j hj => by simp at hj)).set_enabled false⟩, rfl, ?_, Nat.le_refl _,
+      fun _ => haf.symm⟩,
     haf.symm, rfl, rfl, rfl⟩
   show EffRun r.af (d.buffer.drop d.buffer.length) d.pending
   rw [List.drop_length]
